@@ -3,6 +3,7 @@ package entity
 import (
 	"bytes"
 	"compress/gzip"
+	"compress/zlib"
 	"crypto/sha1"
 	"encoding/hex"
 	"fmt"
@@ -17,11 +18,18 @@ import (
 	"verifharness/internal/sx"
 )
 
-// Finding ids proposed for known_findings.json (the classes are Entity.f61 / Entity.f62 in Lean).
-const (
-	FindingLazyTrailer = "F61"
-	FindingAmbiguousCT = "F62"
-)
+// FindingAmbiguousCT is the one open finding of C16 (class Entity.f62 in Lean): the only class that
+// excuses a failing read.
+const FindingAmbiguousCT = "F62"
+
+// FormerF61 names the finding repaired by 75d0593 (class Entity.f61 in Lean: the declared coding's
+// stream breaks after a complete document).  The class excuses nothing: a failing read in it is a
+// violation like any other.  It is still computed on both sides and counted, so that the check can
+// tell that its stream keeps visiting it, and its former witnesses run as regressions on every run.
+const FormerF61 = "F61"
+
+// RepairF61 is the commit that repaired it.
+const RepairF61 = "75d0593"
 
 // ---- validation of the hypotheses (CodecLaws) on what this run uses ----
 
@@ -30,6 +38,7 @@ type Laws struct {
 	Checked  map[string]int
 	Failures []map[string]interface{}
 	dirty    *gzip.Reader // one long-lived reader that goes through every body of the run (reset_law)
+	kept     *gzip.Reader // another one: read by an entity decoder, then on to the end (terminal_kept)
 }
 
 func NewLaws() *Laws {
@@ -37,7 +46,11 @@ func NewLaws() *Laws {
 	if err != nil {
 		panic(err)
 	}
-	return &Laws{Checked: map[string]int{}, dirty: zr}
+	zk, err := gzip.NewReader(bytes.NewReader(gzipBytes(nil, gzip.BestSpeed)))
+	if err != nil {
+		panic(err)
+	}
+	return &Laws{Checked: map[string]int{}, dirty: zr, kept: zk}
 }
 
 func (l *Laws) fail(law string, rd Read, detail string) {
@@ -94,18 +107,43 @@ func (l *Laws) Validate(rd Read, or Oracle) {
 			l.fail("reset_law", rd, fmt.Sprintf("reused reader delivered %d bytes, term %v; fresh reader %d bytes, term %v", len(data), term, len(or.GZ.S.Data), or.GZ.S.Term))
 		}
 	}()
-	// json_dirty / xml_dirty: no document before a clean EOF ⇒ none before an error
-	for _, f := range []Facts{or.GZ, or.ZL} {
-		if f.S.HdrOK && f.S.Term != nil {
-			l.Checked["json_dirty"]++
-			if !f.JDoc.OK && f.JRes.OK {
-				l.fail("json_dirty", rd, "")
+	// terminal_kept — what the model's `Stream` (data, then ONE terminal condition) builds in: a
+	// decompressor keeps the condition it ends with.  An entity decoder that stops after the first
+	// document (or fails), followed by reading on to the end (what ReadEntity does since 75d0593),
+	// meets the same end — clean EOF or error — as reading everything at once; on a reused gzip
+	// reader (Reset, error dropped, as request.go does) and on a zlib reader.
+	for _, kind := range []string{"json", "xml"} {
+		l.Checked["terminal_kept"]++
+		func() {
+			defer func() {
+				if p := recover(); p != nil {
+					l.fail("terminal_kept", rd, fmt.Sprintf("panic while reading on after the %s decoder: %v", kind, p))
+				}
+			}()
+			resetErr := l.kept.Reset(bytes.NewReader(rd.Body))
+			decodeWith(kind, l.kept, rd.Val.NewTarget())
+			_, err := io.Copy(io.Discard, l.kept)
+			if resetErr != nil {
+				// a reader whose Reset failed delivers nothing and keeps that error (for an empty body it is
+				// io.EOF itself): the stream `⟨[], false⟩` of the model, in which no decoder finds a document
+				err = resetErr
 			}
-			l.Checked["xml_dirty"]++
-			if !f.XDoc.OK && f.XRes.OK {
-				l.fail("xml_dirty", rd, "")
+			if (err == nil) != (or.GZ.S.Term == nil) {
+				l.fail("terminal_kept", rd, fmt.Sprintf("gzip: reading on after the %s decoder ended with %v, reading everything at once with %v", kind, err, or.GZ.S.Term))
 			}
-		}
+			if !or.ZL.S.HdrOK {
+				return
+			}
+			zr, err := zlib.NewReader(bytes.NewReader(rd.Body))
+			if err != nil {
+				l.fail("terminal_kept", rd, "zlib.NewReader accepted the header once and refused it the second time")
+				return
+			}
+			decodeWith(kind, zr, rd.Val.NewTarget())
+			if _, err := io.Copy(io.Discard, zr); (err == nil) != (or.ZL.S.Term == nil) {
+				l.fail("terminal_kept", rd, fmt.Sprintf("zlib: reading on after the %s decoder ended with %v, reading everything at once with %v", kind, err, or.ZL.S.Term))
+			}
+		}()
 	}
 }
 
@@ -254,7 +292,7 @@ func RunOne(h History) (*Case, error) {
 	return c, c.Fill(ans[0])
 }
 
-// ---- the Go side of the two finding classes ----
+// ---- the Go side of the two classes (F62: open finding; F61: repaired, coverage only) ----
 
 // accessors mirrors nothing of go-restful: it is the classifier of the finding classes (which
 // registered keys occur in the Content-Type), cross-checked against the Lean definition on every read.
@@ -287,7 +325,8 @@ func accessors(cfg Cfg, ct string) []string {
 	return nil
 }
 
-// ClassF61: the declared coding's stream breaks after a complete document for a selectable reader.
+// ClassF61 (class of the finding repaired by 75d0593; excuses nothing): the declared coding's stream
+// breaks after a complete document for a selectable reader.
 func ClassF61(cfg Cfg, r ReadResult) bool {
 	f := r.Oracle.Declared(r.Read.CE)
 	if f.S.Clean() || !f.S.HdrOK {
@@ -329,10 +368,10 @@ func (c *Case) Judge() (issues []Issue, err error) {
 		if g61, g62 := ClassF61(c.H.Cfg, r), ClassF62(c.H.Cfg, r); g61 != r.F61 || g62 != r.F62 {
 			return nil, fmt.Errorf("class predicates disagree between Lean and Go on read %d: f61 %v/%v f62 %v/%v\n%s", i, r.F61, g61, r.F62, g62, c.Line)
 		}
+		// the only class that can excuse a failing read is the one of the open finding F62; the class
+		// of the repaired F61 (r.F61) is coverage information
 		known := ""
-		if r.F61 {
-			known = FindingLazyTrailer
-		} else if r.F62 {
+		if r.F62 {
 			known = FindingAmbiguousCT
 		}
 		// finer agreement with the model is measured, not demanded (a refactoring may keep the property and change these)
@@ -350,9 +389,10 @@ func (c *Case) Judge() (issues []Issue, err error) {
 			// a finding class explains only the clauses it is about, and only when the model predicts
 			// what happened; anything else that fails on such a read is a different violation
 			for j := 0; known != "" && j < 6; j++ {
-				// clause j may fail only if a class this read lies in is about it:
-				// F61: broken coding (2); F62: round trip (1), broken syntax (3), history independence (4)
-				excused := (r.F61 && j == 2) || (r.F62 && (j == 1 || j == 3 || j == 4))
+				// clause j may fail only if the class is about it:
+				// F62: round trip (1), broken syntax (3), history independence (4) — never broken coding (2):
+				// whichever reader the map iteration picks, a broken stream yields an error
+				excused := r.F62 && (j == 1 || j == 3 || j == 4)
 				if r.Clauses[j] == '0' && !excused {
 					known = ""
 				}
@@ -422,7 +462,7 @@ func Human(c *Case) map[string]interface{} {
 			"value_written": Canon(r.Read.Val.V), "target": fmt.Sprintf("%T", r.Read.Val.NewTarget()), "value_type": r.Read.Val.Type,
 			"kind": r.Read.Kind, "faithful": r.Read.Faithful, "written_hex": hex.EncodeToString(r.Read.Written),
 			"real": r.Real.Key() + " " + r.Real.Detail, "real_ledger": r.Real.Events, "alone_on_fresh_provider": r.Alone.Key(),
-			"model": r.ModelRaw, "model_path": r.Tag, "predicate": r.S, "class_F61": r.F61, "class_F62": r.F62,
+			"model": r.ModelRaw, "model_path": r.Tag, "predicate": r.S, "class_of_repaired_F61": r.F61, "class_F62": r.F62,
 		})
 	}
 	return map[string]interface{}{"provider": fmt.Sprintf("%s cap=%d", c.H.Cfg.Provider, c.H.Cfg.Cap), "provider_kind": c.H.Cfg.Provider, "provider_capacity": c.H.Cfg.Cap, "default_request_content_type": c.H.Cfg.Default,
@@ -606,33 +646,9 @@ func reportMismatch(run *report.Run, c *Case, seed uint64, extras bool) {
 		Case: []string{o.Line}, Human: Human(o), Model: o.Answer, Real: realSummary(o)})
 }
 
-// Witnesses replays the two proposed findings on the real code (deterministic inputs).
+// Witnesses replays the witness of the open finding F62 on the real code (deterministic input).  (The
+// former witness of F61 is a regression now: checkRegressions.)
 func Witnesses(run *report.Run) error {
-	// F61: gzip (stored block) of {"i64":9007199254740993,…} with one payload digit changed: CRC mismatch, yet ok with a wrong value
-	v := Value{Type: "flat", V: Flat{I64: 9007199254740993, S: "x"}, NewTarget: func() interface{} { return &Flat{} }, Deep: true}
-	w, ct, err := Write("json", v.V, false, "WriteEntity")
-	if err != nil {
-		return err
-	}
-	body := gzipBytes(w, gzip.NoCompression)
-	i := bytes.Index(body, []byte("9007199254740993"))
-	if i < 0 {
-		return fmt.Errorf("F61 witness: payload not visible in the stored block")
-	}
-	body[i] = '1'
-	rd := Read{Kind: "json", Val: v, API: "WriteEntity", BaseCT: ct, Coding: "gzip", Level: gzip.NoCompression, Status: "stored-flip", CT: ct, CE: "gzip", Written: w, Body: body}
-	c, err := RunOne(History{Cfg: Cfg{Provider: "sync", Registry: BuiltinRegistry()}, Reads: []Read{rd}})
-	if err != nil {
-		return err
-	}
-	if is, err := c.Judge(); err != nil {
-		return err
-	} else if len(is) == 1 && is[0].Kind == "spec" && is[0].Known == FindingLazyTrailer {
-		run.KnownHits[FindingLazyTrailer]++
-		run.Extra["F61_witness"] = map[string]interface{}{"request": Human(c), "still_fails": true, "case": c.Line, "model": c.Answer}
-	} else {
-		run.Extra["F61_witness"] = map[string]interface{}{"still_fails": false, "issues": fmt.Sprint(is)}
-	}
 	// F62: a faithful XML body under `application/xml; x="application/json"`: which reader is chosen varies from read to read (map iteration order)
 	xv := Value{Type: "flat", V: Flat{I64: 5, S: "x"}, NewTarget: func() interface{} { return &Flat{} }, Deep: true, XMLOK: true}
 	xw, xct, err := Write("xml", xv.V, false, "WriteEntity")
@@ -677,9 +693,14 @@ func Check(run *report.Run, nReads int) error {
 	defer Restore()
 	laws := NewLaws()
 	run.Extra["codec_domain"] = DomainProbe()
+	if err := checkRegressions(run); err != nil {
+		return err
+	}
 	if err := Witnesses(run); err != nil {
 		return err
 	}
+	// how often the stream visits the class of the repaired finding F61, and with what around it
+	former := map[string]int{}
 	base := rng.New(run.Seed*1000003 + 16)
 	specReported, mismatchReported := 0, 0
 	histories, reads, idx := 0, 0, uint64(0)
@@ -738,7 +759,28 @@ func Check(run *report.Run, nReads int) error {
 			soft.ErrorClass += c.Soft.ErrorClass
 			soft.Ledger += c.Soft.Ledger
 			soft.ReaderObject += c.Soft.ReaderObject
+			formerSeen := false
 			for _, r := range c.Reads {
+				if r.F61 {
+					// class of the repaired finding F61: counted, never excused
+					coding := r.Read.CE
+					former["reads"]++
+					former[coding]++
+					former[coding+"/"+r.Read.Kind]++
+					former["body:"+r.Read.Status]++
+					former["answered:"+r.Real.Class]++
+					if r.Read.CE == "gzip" && r.Real.Rid >= 0 && c.H.Cfg.Provider == "bounded" && c.H.Cfg.Cap > 0 {
+						former["on-a-pooled-reader-of-a-bounded-provider"]++
+					}
+					run.Count("former-F61-class")
+					run.Count("former-F61-class:" + coding + ":" + r.Read.Status)
+					formerSeen = true
+				} else if formerSeen {
+					former["later-reads-on-the-same-provider"]++
+					if r.Read.Faithful && r.Read.CE == "gzip" {
+						former["later-faithful-gzip-reads-on-the-same-provider"]++
+					}
+				}
 				run.Evaluations++
 				run.Count("path:" + r.Tag)
 				run.Count("body:" + r.Read.Status)
@@ -803,8 +845,21 @@ func Check(run *report.Run, nReads int) error {
 	run.Extra["reads_alone_on_fresh_provider"] = reads
 	run.Extra["xml_characters_replaced_by_generator"] = ExcludedForXML
 	run.Extra["proposed_findings"] = map[string]string{
-		FindingLazyTrailer: "class Entity.f61: the declared coding's stream breaks after a complete document was delivered — ReadEntity returns no error (and the value can be wrong)",
 		FindingAmbiguousCT: "class Entity.f62: two registered keys with different readers are substrings of the Content-Type — the reader depends on Go map iteration order",
+	}
+	run.Extra["repaired_findings"] = map[string]interface{}{
+		FormerF61:                 "class Entity.f61 (the declared coding's stream breaks after a complete document was delivered): repaired by " + RepairF61 + "; the class excuses nothing, its former witnesses run as regressions (distribution: regression-F61-…, replays/F61.json:…), and the stream's visits to it are counted below",
+		"former_F61_class_visits": former,
+	}
+	// a regression in the repaired class must not go unnoticed: the stream has to keep visiting it, with
+	// both codings (measured over seeds 1–3 at 4000 reads: 418–455 reads ≈ 11 %, gzip 351–383, deflate 67–72;
+	// the floors are about a fifth of that)
+	if nReads >= 2000 {
+		floor, each := nReads/50, nReads/400
+		if former["reads"] < floor || former["gzip"] < each || former["deflate"] < each || former["answered:err"] == 0 {
+			return fmt.Errorf("the stream hardly visits the class of the repaired finding F61 (%d of %d reads: gzip %d, deflate %d; at least %d, %d, %d expected): a regression there would go unnoticed",
+				former["reads"], reads, former["gzip"], former["deflate"], floor, each, each)
+		}
 	}
 	return nil
 }
